@@ -122,7 +122,7 @@ def handle (st : St) (fam : String) (rhs : String) : P Out := do
     let m := match mk u1 ns1 o1, mk u2 ns2 o2 with
       | .ok a, .ok b => s!"{if a.beq b then 1 else 0} {a.cmp b}"
       | _, _ => "Err:Construct"
-    pure { model := m }
+    pure { model := m, oracles := Spec.dtcmpOracles u1 ns1 u2 ns2 rhsToks }
   | "rulenew" =>
     let (std, dst, ds, st', de, et) ← altRaw
     let m := liftRule (AlternateTime.new std dst ds st' de et)
